@@ -78,6 +78,33 @@ fn lib_read(w: &Schema, r: &Schema, bytes: &[u8]) -> Result<Value, String> {
     }
 }
 
+/// The datum reader given `{"Ref": name}` on both sides with W and R supplied as the two schemata (only when
+/// both are named types of the same full name).
+fn schemata_read(w: &Schema, r: &Schema, bytes: &[u8]) -> Option<Result<Value, String>> {
+    let (wn, rn) = (w.name()?, r.name()?);
+    if wn != rn {
+        return None;
+    }
+    let (wref, rref) = (Schema::Ref { name: wn.clone() }, Schema::Ref { name: rn.clone() });
+    Some(
+        match guarded(|| -> Result<Value, String> {
+            let rd = GenericDatumReader::builder(&wref)
+                .writer_schemata(vec![w])
+                .map_err(|e| format!("harness: writer schemata: {e}"))?
+                .reader_schema(&rref)
+                .reader_schemata(vec![r])
+                .map_err(|e| format!("harness: reader schemata: {e}"))?
+                .build()
+                .map_err(|e| format!("error: {e}"))?;
+            let mut cur: &[u8] = bytes;
+            rd.read_value(&mut cur).map_err(|e| format!("error: {e}"))
+        }) {
+            Ok(x) => x,
+            Err(p) => Err(format!("panic: {p}")),
+        },
+    )
+}
+
 /// A record that requires itself (a field whose type is a reference to an enclosing record, outside any
 /// union, array or map): no finite value conforms to it.
 fn bottomless(j: &J, enclosing: &mut Vec<String>) -> bool {
@@ -345,6 +372,22 @@ pub fn run_c08(tier: Tier, replay: Option<&J>) -> i32 {
                             problem = Some(("paths-differ", format!("from_avro_datum with a reader schema ends differently from the datum reader: {}", ev::trunc(&format!("{got4:?}"), 200))));
                         }
                     }
+                    // fifth path: writer and reader both name the type by reference only and each side
+                    // supplies its own version of it through writer_schemata / reader_schemata (the two root
+                    // schemas compare equal although the type behind the name evolved)
+                    if problem.is_none() {
+                        if let Some(got5) = schemata_read(&pp.wl, &pp.rl, &bytes) {
+                            st.transitions += 1;
+                            let agree5 = match (&got, &got5) {
+                                (Ok(a), Ok(b)) => value_eq(a, b),
+                                (Err(_), Err(e)) => !e.starts_with("panic") && !e.starts_with("harness"),
+                                _ => false,
+                            };
+                            if !agree5 {
+                                problem = Some(("paths-differ", format!("a datum reader given the type by reference through writer_schemata / reader_schemata ends differently from the datum reader given the schemas directly: {}", ev::trunc(&format!("{got5:?}"), 200))));
+                            }
+                        }
+                    }
                 }
                 match problem {
                     None => {
@@ -375,7 +418,7 @@ pub fn run_c08(tier: Tier, replay: Option<&J>) -> i32 {
         id: "C08".into(),
         tier,
         level: "model_checking",
-        rule: "pairs (W,R) = base schemas (hand-written rich bases + a slice of SU(2)) x every evolution step at every node (1 step everywhere, 2 steps on the bases); for every value of W (alphabet level 1) the datum reader with reader schema and Value::resolve are compared with refresolve (spec rules; union-branch choice accepts spec-first-match or reference-implementation exact-first); a class is (step sequence, writer kind, result/no-result)".into(),
+        rule: "pairs (W,R) = base schemas (hand-written rich bases + a slice of SU(2)) x every evolution step at every node (1 step everywhere, 2 steps on the bases); for every value of W (alphabet level 1) the datum reader with reader schema and Value::resolve are compared with refresolve, and three more paths must end like the datum reader (a container file read with the reader schema, the deprecated from_avro_datum, and a datum reader that is given the type only by reference with W and R supplied as writer_schemata / reader_schemata) (spec rules; union-branch choice accepts spec-first-match or reference-implementation exact-first); a class is (step sequence, writer kind, result/no-result)".into(),
         bounds: json!({"pairs": ps.len(), "max_steps": 2}),
         assumptions: vec!["refresolve implements the specification's resolution rules literally over the underlying types; logical types map to the reader's representation".into()],
         exhaustive: replay.is_none(),
